@@ -25,3 +25,22 @@ Example C14_examples :
   sanitise_name (s2l "**kw") = s2l "kw" /\ sanitise_name (s2l "*args") = s2l "args" /\
   sanitise_name (s2l "**kwargs") = s2l "kwargs" /\ sanitise_name (s2l "plain") = s2l "plain".
 Proof. repeat split; vm_compute; reflexivity. Qed.
+
+(* ---- the ReST docstring parser (Model/RestDoc.v: _scan_phase_rest + _parse_phase_rest with the name handling of
+   _set_name_and_type), for EVERY input text -- no well-formedness hypothesis: the parameter names it returns are pairwise
+   distinct and none starts with an asterisk; the return entry is at most one by construction (an option). *)
+From CDD Require RestDoc RestDocShapeProofs.
+Theorem C14_rest_names_once_and_star_free : forall (doc : str),
+  NoDup (map fst (RestDoc.p_params (RestDoc.parse_rest doc)))
+  /\ Forall (fun n => startswith [STAR] n = false) (map fst (RestDoc.p_params (RestDoc.parse_rest doc))).
+Proof. exact RestDocShapeProofs.parse_rest_names_ok. Qed.
+Print Assumptions C14_rest_names_once_and_star_free.
+
+(* the parser's name handling is the sanitiser of C14_name_sanitised *)
+Theorem C14_rest_parser_sanitises : forall n, RestDoc.norm_name n = sanitise_name n.
+Proof. intro n. unfold RestDoc.norm_name, sanitise_name. destruct n as [|c r]; reflexivity. Qed.
+
+Example C14_rest_names_example :
+  map fst (RestDoc.p_params (RestDoc.parse_rest (s2l ":param x: a :param **kw: b :param x: c :param *args: d :type kw: ```dict```")))
+  = [s2l "x"; s2l "kw"; s2l "args"].
+Proof. vm_compute. reflexivity. Qed.
